@@ -759,6 +759,25 @@ let conn_case (line : string) : string =
                 | RFail -> "err"
                 | REof -> if !closed then "eof" else "timeout"
                 | RTooLarge -> "toolarge") :: !out
+          | "H" ->
+              (* the same stream read through the connection's read half (receive_message_from_read_half) *)
+              if not connected then out := "state" :: !out else
+              let r, cs' = receive_half (nat_of_int (List.length !cs + 2 + 1000)) cfg !cs in
+              cs := cs';
+              out := (match r with
+                | RMsg (m, pl) -> "ok " ^ show_cmsg m ^ " | " ^ (match pl with Some p -> term_str p | None -> "-")
+                | RFail -> "err"
+                | REof -> if !closed then "eof" else "timeout"
+                | RTooLarge -> "toolarge") :: !out
+          | "W" ->
+              (* receive_raw: the next frame's bytes, ticks included *)
+              if not connected then out := "state" :: !out else
+              let (r, cs'), _ = read_framed Distribution !cs in
+              cs := cs';
+              out := (match r with
+                | ROk b -> "raw " ^ hex_of_bytes b
+                | RErr Eof -> if !closed then "eof" else "timeout"
+                | RErr TooLarge -> "toolarge") :: !out
           | "S" ->
               let op = rd_sop t in
               if not connected then out := "err state" :: !out else
